@@ -78,7 +78,12 @@ def run_task(t):
     if kind == 'history':
         fd = build(t['mesh'])
         out = []
+
+        def flag(x):      # falsy / truthy values that are not the bool singletons
+            return {'None': None, '0': 0, '1': 1, 'np.False_': np.False_, 'np.True_': np.True_}.get(x, x) \
+                if isinstance(x, str) else x
         for c in t['calls']:
+            c = dict(c, **{'raise': flag(c['raise']), 'abs': flag(c['abs'])})
             try:
                 e = c['entry']
                 if e == 'areas':
@@ -104,7 +109,7 @@ def run_task(t):
         return {'results': out}
     if kind == 'motion':
         fd = build(t['mesh'])
-        if t['pop_node'] and 'NODE' in fd.nodal_data:
+        if t['prep'] == 'pop_node' and 'NODE' in fd.nodal_data:
             fd.nodal_data.pop('NODE')
         key = {'areas': 'area', 'volumes': 'volume', 'metrics': 'metric', 'normals': 'normal'}[t['entry']]
 
@@ -130,6 +135,10 @@ def run_task(t):
         res = {}
         if t['order'] == 'qmq':
             res['first'] = query()
+        if t['prep'] == 'reset':
+            # what users do before moving a mesh: drop the attached tables
+            fd.nodal_data.reset()
+            fd.elemental_data.reset()
         res['derived_keys_before_motion'] = [str(k) for k in fd.elemental_data.keys()]
         try:
             for mv in t['motions']:
